@@ -7,6 +7,7 @@ import Spake2Verif.Proofs.PublishedEvalVectorsA1
 import Spake2Verif.Proofs.PublishedEvalVectorsA2
 import Spake2Verif.Proofs.PublishedEvalVectorsS1
 import Spake2Verif.Proofs.PublishedEvalVectorsS2
+import Spake2Verif.Proofs.ProtoShapeTie
 /-!
 # C03 — Messages and keys conform to the published SPAKE2 definition (interop)
 
@@ -675,5 +676,14 @@ instances is satisfiable there), and a toy message has `1 + 1` bytes -/
 example : defaultParams toyG = .ok toyParams ∧
     (Inst.new (G := toyG) .A [1] [1] [2] toyParams ⟨[7]⟩).start.2 = .ok [65, 6] := by
   exact ⟨toy_defaultParams, by decide +kernel⟩
+
+/-- Tie A: the key layout and the side byte of the messages are those of the *source* -- the two
+transcript functions and the class side constants as translated by `tools/py2lean.py` -/
+theorem key_layout_and_side_bytes_are_the_source :
+    finalizeSPAKE2 = Spake2Model.Gen.Proto.finalize_asym ∧
+    finalizeSymmetric = Spake2Model.Gen.Proto.finalize_sym ∧
+    (Side.byte .A = Spake2Model.Gen.Proto.class_side_A ∧ Side.byte .B = Spake2Model.Gen.Proto.class_side_B ∧
+      Side.byte .S = Spake2Model.Gen.Proto.class_side_S) :=
+  ⟨ProtoShapeTie.finalize_asym_tie, ProtoShapeTie.finalize_sym_tie, ProtoShapeTie.class_sides_tie⟩
 
 end Spake2Verif.C03
